@@ -37,13 +37,24 @@ def main():
     muts = json.load(open(os.path.join(VERIF, "selftest", "mutants.json")))
     want = set(a.upper() for a in sys.argv[1:])
     bad = 0
-    for m in muts:
-        if want and m["property"] not in want and m["id"] not in want:
-            continue
-        res = run_one(m)
-        print(json.dumps(res))
-        if not res.get("ok"):
-            bad += 1
+    jobs = int(os.environ.get("MUTANT_JOBS", "1"))
+    sel = [m for m in muts if not want or m["property"] in want or m["id"] in want]
+    if jobs > 1:
+        # several mutants at a time (each run has its own scratch copy and evidence directory; replays of
+        # concurrent runs of one property may overwrite each other, the verdicts are not affected)
+        from concurrent.futures import ThreadPoolExecutor
+        with ThreadPoolExecutor(jobs) as ex:
+            results = ex.map(run_one, sel)
+            for res in results:
+                print(json.dumps(res), flush=True)
+                if not res.get("ok"):
+                    bad += 1
+    else:
+        for m in sel:
+            res = run_one(m)
+            print(json.dumps(res), flush=True)
+            if not res.get("ok"):
+                bad += 1
     # restore evidence of the real tree is the caller's job (checks rewrite evidence on every run)
     sys.exit(1 if bad else 0)
 
